@@ -18,6 +18,13 @@ EnumAlgs == RealAlgs \cup {"none", "INVAL"}
 \* What jwt_str_alg is documented to do with a spelling: exact names only.
 StrAlg(s) == IF s \in RealAlgs \cup {"none"} THEN s ELSE "INVAL"
 
+\* Near misses of a name, none of them a name: its family prefix, one character more, and the name
+\* followed by a NUL character and more text ("#0" in a descriptor stands for the character U+0000,
+\* which the driver writes as the JSON escape \u0000) - a C string comparison would stop there.
+AlgPrefix(a) == CASE a \in HSAlgs -> "HS" [] a \in RSAlgs -> "RS" [] a \in PSAlgs -> "PS" [] a \in ESAlgs -> "ES"
+                  [] a \in EdAlgs -> "Ed" [] OTHER -> "non"
+NearMiss(a) == {AlgPrefix(a), a \o "x", a \o "#0x", a \o "#0none", "none#0" \o a}
+
 Family(a) == CASE a \in HSAlgs -> "oct"
                [] a \in RSAlgs \cup PSAlgs -> "RSA"
                [] a \in ESAlgs -> "EC"
